@@ -234,5 +234,4 @@ def net_expr(c):
 
 
 K.FAMILIES["net"] = (gen_net_case, run_net_impl, net_expr)
-if "Net" not in K.HEADER:
-    K.HEADER = K.HEADER.replace(" Run.", " Net Run.")
+K.add_imports("Distrib", "Kinds", "Net")
